@@ -248,3 +248,51 @@ def hosted_grid_once_each(r1: int, r2: int, b1: int, b2: int, b3: int, shuffled:
     ok = len(set(first)) == total and first == second        # every grid point exactly once before repeating
   reach('hosted_grid')
   return finish(ok, (r1, r2, b1, b2, b3, shuffled))
+
+
+class _TickingTime:
+  """policy_factory.time stand-in: every policy build sees a later second (SHUFFLED_GRID_SEARCH seeds from the clock)."""
+
+  def __init__(self):
+    self.now = 1000.0
+
+  def time(self):
+    self.now += 1.0
+    return self.now
+
+
+def hosted_grid_via_factory(r1: int, r2: int, b1: int, b2: int, b3: int, shuffled: bool) -> bool:
+  """
+  pre: 1 <= r1 <= 3 and 1 <= r2 <= 3 and 1 <= b1 <= 3 and 1 <= b2 <= 3 and 1 <= b3 <= 3
+  post: _
+  """
+  r1, r2, b1, b2, b3 = conc(r1, 1, 3), conc(r2, 1, 3), conc(b1, 1, 3), conc(b2, 1, 3), conc(b3, 1, 3)
+  shuffled = True if shuffled else False
+  with NoTracing():
+    from vizier._src.pythia import local_policy_supporters as lps
+    from vizier._src.service import policy_factory
+    problem = vz.ProblemStatement(search_space=_space(r1, r2))
+    problem.metric_information.append(vz.MetricInformation('m', goal=vz.ObjectiveMetricGoal.MAXIMIZE))
+    sup = lps.InRamPolicySupporter(problem)
+    saved = policy_factory.time
+    policy_factory.time = _TickingTime()
+    try:
+      seen = []
+      total = r1 * r2
+      batches = [b1, b2, b3]
+      k = 0
+      while len(seen) < 2 * total:
+        # the algorithm exactly as the service hosts it: real policy factory, a NEW policy for every request
+        policy = policy_factory.DefaultPolicyFactory()(
+            sup.study_config, 'SHUFFLED_GRID_SEARCH' if shuffled else 'GRID_SEARCH', sup, 'study')
+        trials = sup.SuggestTrials(policy, count=batches[k % 3])
+        k += 1
+        for t in trials:
+          seen.append(tuple(sorted(t.parameters.as_dict().items())))
+          t.complete(vz.Measurement({'m': 1.0}))
+    finally:
+      policy_factory.time = saved
+    first, second = seen[:total], seen[total:2 * total]
+    ok = len(set(first)) == total and first == second        # every grid point exactly once before repeating
+  reach('hosted_grid_factory')
+  return finish(ok, (r1, r2, b1, b2, b3, shuffled))
